@@ -119,7 +119,7 @@ def r_arguments(ctx):
 def r_schema(ctx):
     rid = 'R12.3'
     ctx.rule(rid, 'a parameter compiles like a literal: `comp unit (const v)` with v = argument of that name; child scopes carry the same arguments')
-    c01.schema_rules(ctx, only={'compile::<impl ast::SingleExpression>::compile'})
+    c01.schema_rules(ctx, only={'compile::<impl ast::SingleExpression>::compile': r'=(Parameter|Constant)\b'})
     fx = ctx.facts()
     rows, _ = c01.signatures(ctx)
     const = [r for r in rows if r['form'] == 'inner(self)=Constant']
@@ -148,3 +148,7 @@ def check(ctx):
     ctx.rule('R12.2', 'instantiate gate and Arguments::is_consistent decision table')
     r_arguments(ctx)
     r_schema(ctx)
+    # an argument reaches the program as const(StructuralValue::from(value)): the same conversion tables as constants and witnesses
+    from . import c07
+    c07.r_value_to_structural(ctx, 'R12.5')
+    c07.r_layout_tables(ctx, 'R12.6', c07.LAYOUT_CONSTRUCT, 20)
